@@ -540,12 +540,16 @@ struct HistHarness : Harness {
 	void execute(const Json &plan, RunCtx &ctx) override {
 		std::string prop = plan.gets("prop", ctx.prop);
 		uint64_t ph = hash_json(plan);
+		const char *tr = getenv("PSV_HIST_TRACE");   // debugging aid: event log of one run index to stderr
+		bool dump = tr && ctx.run == atoll(tr);
+		if (dump) ctx.log.keep = true;
 		ctx.log.ev("run %s plan=%016llx", prop.c_str(), (unsigned long long)ph);
 		if (prop == "C20") exec_c20(plan, ctx, ph);
 		else if (prop == "C16") exec_c16(plan, ctx, ph);
 		else if (prop == "C19") exec_c19(plan, ctx, ph);
 		else if (prop == "C18") exec_c18(plan, ctx, ph);
 		else ctx.violate(prop + "|setup|plan|none|unknown-property", "plan names a property this harness does not serve");
+		if (dump) for (auto &l : ctx.log.lines) fprintf(stderr, "TRACE %s\n", l.c_str());
 		disk::reset();
 	}
 	std::vector<Json> simplify(const Json &plan, const Json &aux) override {
